@@ -292,7 +292,8 @@ func (e *Engine) syncModel(st *State, g *G, full string, args []Value) (Value, b
 			e.vc(st, "deadlock", "DEADLOCK: RLock while holding write lock ("+g.top().fn.String()+")", B(true))
 			return nil, true, "VC:"
 		}
-		if m.owner != 0 {
+		if m.owner != 0 || e.writerWaiting(st, key) {
+			// sync.RWMutex: a pending Lock blocks new readers (a recursive RLock with a writer in between deadlocks)
 			e.block(st, g, wRLock, nil, key)
 			return nil, true, "BLOCK"
 		}
